@@ -119,6 +119,12 @@ func (m *Machine) initOSGlobal(g *ssa.Global, o *Object) {
 	}
 }
 
+type dirInfoV struct {
+	name Str
+	kind *Term
+	size int
+}
+
 type direntV struct {
 	name Str
 	kind *Term
@@ -562,7 +568,49 @@ func init() {
 		}
 		return Tuple{m.BytesToSlice(b), Iface{}}
 	})
+	// an entry of the symbolic directory (C18): Stat follows a link to its regular target, Lstat
+	// reports the entry itself
+	dirStat := func(m *Machine, p Str, follow bool) (Value, bool) {
+		e := m.env()
+		if e.dirPath == "" {
+			return nil, false
+		}
+		t := types.NewNamed(types.NewTypeName(0, nil, "modelFileInfo", nil), types.Typ[types.String], nil)
+		pre := ConcStr(e.dirPath+"/", m.S)
+		for k, nm := range e.dirNames {
+			full := Str{append(append([]*Term(nil), pre.B...), nm.B...)}
+			if len(full.B) != len(p.B) {
+				continue
+			}
+			if m.Branch(m.valEq(full, p)) {
+				kind := e.dirKinds[k]
+				if follow {
+					kind = m.S.Const(8, 0)
+				}
+				return Tuple{Iface{T: t, V: Opaque{"dirfileinfo", dirInfoV{nm, kind, len(e.dirContents[k].B)}}}, Iface{}}, true
+			}
+		}
+		if _, ok := p.Concrete(); !ok {
+			return Tuple{Iface{}, m.mkError(ConcStr("stat: no such file or directory", m.S), nil)}, true
+		}
+		return nil, false
+	}
+	reg("os.Lstat", func(m *Machine, fn *ssa.Function, a []Value) Value {
+		if v, ok := dirStat(m, a[0].(Str), false); ok {
+			return v
+		}
+		name := concStrArg(m, a[0], "Lstat path")
+		_, _, ent, en := m.K.resolve(m.K.root, name)
+		if en != 0 || ent == nil {
+			return Tuple{Iface{}, m.mkError(ConcStr("lstat "+name+": no such file or directory", m.S), nil)}
+		}
+		t := types.NewNamed(types.NewTypeName(0, nil, "modelFileInfo", nil), types.Typ[types.String], nil)
+		return Tuple{Iface{T: t, V: Opaque{"fileinfo", ent.ino}}, Iface{}}
+	})
 	reg("os.Stat", func(m *Machine, fn *ssa.Function, a []Value) Value {
+		if v, ok := dirStat(m, a[0].(Str), true); ok {
+			return v
+		}
 		name := concStrArg(m, a[0], "Stat path")
 		_, _, ent, en := m.K.resolve(m.K.root, name)
 		if en != 0 || ent == nil {
@@ -827,6 +875,22 @@ func init() {
 				return m.S.Const(32, 1<<31|0o755)
 			}
 			return m.S.Const(32, 0o644)
+		}
+		m.unsupported("FileInfo." + name)
+		return nil
+	}
+	opaqueHandlers["dirfileinfo"] = func(m *Machine, o Opaque, name string, args []Value) Value {
+		d := o.V.(dirInfoV)
+		switch name {
+		case "Name":
+			return d.name
+		case "Size":
+			return m.S.Const(64, uint64(d.size))
+		case "IsDir":
+			return m.S.False
+		case "Mode":
+			isLink := m.S.Not(m.S.Eq(d.kind, m.S.Const(8, 0)))
+			return m.S.Ite(isLink, m.S.Const(32, 1<<27|0o777), m.S.Const(32, 0o644))
 		}
 		m.unsupported("FileInfo." + name)
 		return nil
